@@ -166,7 +166,9 @@ class Check:
                             out.append(self._scenario(kind, params, tail, tol, arch, f))
                             if sname == 'zero' and C.KINDS[kind].q0_route == 'q0':
                                 # the class's own initialisation from a zeroed first sample (no q0 given)
-                                out.append(self._scenario(kind, dict(params, _own_init=True), tail, tol, arch, f))
+                                # safety oracle only: the class's own first attitude may be far from the stub's truth
+                                # (other frame convention), and convergence from far away is C05's subject
+                                out.append(self._scenario(kind, dict(params, _own_init=True), tail, None, arch, f))
                 if tier != 'quick':
                     # two disjoint dropouts of different sensors
                     for s1, s2 in (('acc', 'mag'), ('gyr', 'acc'), ('mag', 'gyr')):
